@@ -853,6 +853,64 @@ func registerReflect(ex *Executor) {
 		}
 		return smt.Eq(la, lb), cNext
 	}
+	// HasPrefix / HasSuffix with a literal affix: an uninterpreted predicate of (string, affix), decided for literals and for
+	// concatenations that start / end with a literal; true only for non-empty strings. (Decoded models prepend / append
+	// the affix so the native run agrees; two different affixes required of one string are outside what decoding handles.)
+	affix := func(pre bool) Intrinsic {
+		return func(ex *Executor, st *State, cc *CallCtx, args []Val) (Val, ctl) {
+			str := func(v Val) *smt.Term {
+				switch x := v.(type) {
+				case *smt.Term:
+					return x
+				case BytesV:
+					return ex.bytesContent(st, x)
+				}
+				ex.abort("HasPrefix/HasSuffix on unsupported value %T", v)
+				return nil
+			}
+			x, p := str(args[0]), str(args[1])
+			if !p.IsConst() {
+				ex.abort("HasPrefix/HasSuffix with a symbolic affix")
+			}
+			if p.S == "" {
+				return smt.True, cNext
+			}
+			if x.IsConst() {
+				if pre {
+					return smt.BoolC(strings.HasPrefix(x.S, p.S)), cNext
+				}
+				return smt.BoolC(strings.HasSuffix(x.S, p.S)), cNext
+			}
+			var segs []*smt.Term
+			flattenConcat(x, &segs)
+			edge := segs[0]
+			if !pre {
+				edge = segs[len(segs)-1]
+			}
+			if edge.IsConst() && edge.S != "" {
+				if pre && (strings.HasPrefix(edge.S, p.S) || !strings.HasPrefix(p.S, edge.S)) {
+					return smt.BoolC(strings.HasPrefix(edge.S, p.S)), cNext
+				}
+				if !pre && (strings.HasSuffix(edge.S, p.S) || !strings.HasSuffix(p.S, edge.S)) {
+					return smt.BoolC(strings.HasSuffix(edge.S, p.S)), cNext
+				}
+			}
+			name := "uf_hassuffix"
+			if pre {
+				name = "uf_hasprefix"
+			}
+			if x.Op == smt.OpVar {
+				ex.affixes[name+"|"+p.S] = true
+			}
+			t := smt.App(name, smt.Bool, x, p)
+			st.addPC(smt.Implies(t, smt.Not(smt.Eq(x, smt.StrC("")))))
+			return t, cNext
+		}
+	}
+	I["strings.HasPrefix"] = affix(true)
+	I["bytes.HasPrefix"] = affix(true)
+	I["strings.HasSuffix"] = affix(false)
+	I["bytes.HasSuffix"] = affix(false)
 	I["strings.ToLower"] = func(ex *Executor, st *State, cc *CallCtx, args []Val) (Val, ctl) {
 		s := args[0].(*smt.Term)
 		if !s.IsConst() {
